@@ -7,7 +7,11 @@ model vs the value, coefficient and parked-sample arrays of every sub-range copy
 active construction with parked samples, transforms, limits, zero outputs, empty grid) x copy constructor / assignment /
 copyGrid(b, e) for all sub-ranges: the full query API of the copy equals the source restricted to [b, e) bit for bit, the
 binary image of a full copy is byte-identical; then EACH side is put through every mutating API call while the other
-side is re-observed after every call (must stay bit-identical); the same scripts run under ASan/UBSan."""
+side is re-observed after every call (must stay bit-identical); the same scripts run under ASan/UBSan.
+"Complete" also means: the SAME continuation (refinement, updateGrid to a larger depth, polynomial space, load, evaluate, integrate, write + read in
+both formats, construction candidates) run on the source and on the copy gives the same observations restricted to the output range (K cases).
+Global grids with a CUSTOM-TABULATED rule (Gauss-Legendre levels tabulated by this file) are always among the sources: their copies must carry the
+one dimensional table, which only later calls on the copy need."""
 import concurrent.futures as cf
 import hashlib
 import os
@@ -36,6 +40,149 @@ OUT_TAGS = ("values", "coef", "evalb", "eval", "evalf", "integ", "cpvals")
 
 def hx(v):
     return vlib.hexf(v)
+
+
+# ------------------------------------------------------------------------------------------------ custom tabulated rule
+CUSTOM_FILE = "c11gl.table"
+CUSTOM_LEVELS = 12
+
+
+def gauss_legendre(n):
+    """nodes and weights of the n point Gauss-Legendre rule (Newton iteration on the three term recurrence; pure Python)"""
+    import math
+    xs, ws = [], []
+
+    def pn(x):
+        p0, p1 = 1.0, x
+        for k in range(2, n + 1):
+            p0, p1 = p1, ((2 * k - 1) * x * p1 - (k - 1) * p0) / k
+        return p1, n * (x * p1 - p0) / (x * x - 1.0)
+    for i in range(n):
+        x = math.cos(math.pi * (i + 0.75) / (n + 0.5))
+        for _ in range(100):
+            p, dp = pn(x)
+            dx = p / dp
+            x -= dx
+            if abs(dx) < 1e-16:
+                break
+        p, dp = pn(x)
+        xs.append(x)
+        ws.append(2.0 / ((1.0 - x * x) * dp * dp))
+    order = sorted(range(n), key=lambda i: xs[i])
+    xs, ws = [xs[i] for i in order], [ws[i] for i in order]
+    if n % 2 == 1:
+        xs[n // 2] = 0.0
+    return xs, ws
+
+
+def custom_table_text(levels=CUSTOM_LEVELS):
+    """CustomTabulated ascii file: level l = Gauss-Legendre rule with l+1 nodes, quadrature exactness 2l+1"""
+    out = ["description: verif C11 Gauss-Legendre table (level l has l+1 nodes)", "levels: %d" % levels]
+    rules = [gauss_legendre(l + 1) for l in range(levels)]
+    for l in range(levels):
+        out.append("%d %d" % (l + 1, 2 * l + 1))
+    for xs, ws in rules:
+        for x, w in zip(xs, ws):
+            out.append("%s %s" % (repr(w), repr(x)))
+    return "\n".join(out) + "\n"
+
+
+def is_custom(spec):
+    return spec.get("family") == "global" and spec.get("rule") == "custom-tabulated"
+
+
+def mkcmd(spec, slot="g"):
+    """gl.make_cmd plus the spelling of condrv for Global grids with a custom tabulated rule"""
+    if is_custom(spec):
+        return "make custom %s %d %d %d %s %s%s%s" % (slot, spec["dims"], spec["outs"], spec["depth"], spec["type"], spec.get("custom", CUSTOM_FILE),
+                                                  gl.kv("aw:", spec.get("aw", [])), gl.kv("ll:", spec.get("ll", [])))
+    return gl.make_cmd(spec, slot)
+
+
+def custom_sources(r, n):
+    """Global grids with rule_customtabulated: fresh / loaded / updated (pending points) / updated and loaded again; 1-2 dimensions, several outputs"""
+    out = []
+    fixed = [(2, 2, 2, "level", "loaded"), (1, 3, 3, "level", "updated"), (2, 3, 1, "iptotal", "fresh"), (2, 4, 2, "qptotal", "reloaded"),
+             (1, 2, 2, "level", "loaded-trans"), (2, 1, 2, "hyperbolic", "loaded")]
+    for i in range(n):
+        if i < len(fixed):
+            d, outs, depth, ty, kind = fixed[i]
+            aw, ll = [], []
+        else:
+            d, outs = r.choice([1, 2, 2]), r.choice([1, 2, 2, 3, 4])
+            ty = r.choice(["level", "level", "iptotal", "qptotal", "hyperbolic", "tensor", "curved"])
+            depth = r.randint(1, 3) if ty not in ("iptotal", "qptotal") else r.randint(1, 5)
+            if ty == "tensor":
+                depth = r.randint(1, 2)
+            aw = gl.rand_aw(r, d, ty) if r.random() < 0.3 else []
+            ll = gl.rand_limits(r, d, 0.2, hi=4)
+            kind = r.choice(["fresh", "loaded", "loaded", "updated", "reloaded", "loaded-trans"])
+        spec = {"family": "global", "dims": d, "outs": outs, "ll": ll, "rule": "custom-tabulated", "type": ty, "depth": depth, "aw": aw, "custom": CUSTOM_FILE}
+        lines = [mkcmd(spec, "a")]
+        trans = None
+        if kind == "loaded-trans":
+            trans = gl.rand_transform(r, spec)
+            lines.append(gl.trans_cmd(trans, "a"))
+        fn = r.choice(["hash", "smooth", "poly"])
+        if kind != "fresh":
+            lines.append("load a " + fn)
+        if kind in ("updated", "reloaded"):
+            lines.append("update a %d %s" % (depth + r.randint(1, 2), r.choice(["level", "iptotal"]) if ty != "tensor" else "level"))
+        if kind == "reloaded":
+            lines.append("load a " + r.choice(["hash", "poly"]))
+        out.append({"id": "t%d" % i, "spec": spec, "kind": {"loaded-trans": "loaded", "updated": "refined", "reloaded": "refined-loaded"}.get(kind, kind),
+                    "lines": lines, "trans": trans, "cand": None, "fn": fn, "seed": 3000 + i + (r.randint(0, 10 ** 9) if i >= len(fixed) else 0)})
+    return out
+
+
+def continuation(s, slot, outs_here, boff, loaded):
+    """the same further history for the source (slot a, output boff) and for a copy (slot b, output 0 of the range): every call is deterministic and
+    depends only on the outputs of the range, so the observations must agree on the range (exceptions included)"""
+    spec, fam, d = s["spec"], s["spec"]["family"], s["spec"]["dims"]
+    X = slot
+    c = []
+    j = boff if slot == "a" else 0          # the output of the range that steers the refinement
+    joff = 0 if slot == "a" else boff       # the copy is loaded with the values of its own outputs
+    if outs_here > 0 and loaded:
+        if fam in ("localp", "wavelet"):
+            c.append("refsurp %s 0x1p-7 classic %d" % (X, j))
+        elif fam == "sequence":
+            c.append("refsimple %s 0x1p-7 %d" % (X, j))
+        else:
+            c.append("refaniso %s iptotal 1 %d" % (X, j))
+        c.append("dump %s meta needed nidx" % X)
+    upd = fam in ("sequence", "fourier") or (fam == "global" and spec["rule"] not in gl.GLOBAL_NONNESTED)
+    if upd:
+        c.append("update %s %d level" % (X, min(spec["depth"] + 2, 5 if d < 3 else 3)))
+    c.append("dump %s meta allpoints needed pidx nidx" % X)
+    if fam in ("global", "fourier"):
+        c.append("dump %s tensors" % X)
+    if fam in ("global", "sequence"):
+        c += ["dump %s polyi" % X, "dump %s polyq" % X]
+    if is_custom(spec):
+        c.append("xdump %s custom" % X)
+    px = " ".join(hx(v) for v in s["probes"])
+    if outs_here > 0:
+        c += ["loadoff %s poly %d" % (X, joff), "dump %s meta allpoints" % X, "dump %s values" % X, "dump %s coef" % X, "evalb %s x: %s" % (X, px)] + (["integ %s" % X] if s["kind"] != "construct" else [])
+    for fmt in ("bin", "ascii"):
+        Y = fmt[0] + X
+        c += ["write %s %s stream w%s%s" % (X, fmt, fmt[0], X), "read %s %s stream w%s%s" % (Y, fmt, fmt[0], X), "dump %s meta allpoints needed pidx nidx" % Y,
+              "dump %s values" % Y, "dump %s coef" % Y] + (["integ %s" % Y] if outs_here > 0 and s["kind"] != "construct" else [])
+        if fam in ("global", "sequence"):
+            c.append("dump %s polyi" % Y)
+        if is_custom(spec):
+            c.append("xdump %s custom" % Y)
+        if upd:
+            c += ["update %s %d level" % (Y, min(spec["depth"] + 3, 6 if d < 3 else 3)), "dump %s meta needed nidx" % Y]
+    c.append("begin %s" % X)
+    if fam in ("localp", "wavelet"):
+        c.append("cand %s surp 0x1p-7 classic %d" % (X, j if outs_here > 0 else -1))
+    else:
+        c.append("cand %s aw level aw: %s" % (X, " ".join("1" for _ in range(d))))
+    c += ["finish %s" % X, "dump %s meta needed nidx" % X]
+    if is_custom(spec):
+        c += ["update %s %d level" % (X, CUSTOM_LEVELS + 2), "dump %s meta needed nidx" % X]     # beyond the table: refused on both sides, nothing changes
+    return c
 
 
 # ------------------------------------------------------------------------------------------------ sources
@@ -175,7 +322,7 @@ def mutations(r, src, slot, outs):
         m.append("setcoef %s hash" % slot)
         if fam == "localp":
             m.append("remtol %s 0x1p-3 -1" % slot)
-        nested = not (fam == "global" and spec["rule"] in gl.GLOBAL_NONNESTED)
+        nested = not (fam == "global" and (spec["rule"] in gl.GLOBAL_NONNESTED or is_custom(spec)))     # (the tabulated levels are Gauss-Legendre rules)
         if not conf and nested:   # (the conformal map is inverted numerically: node recognition under it belongs to C10; construction needs nested rules)
             m += ["begin %s" % slot, candc, "deliver %s hash idx: 0" % slot, "deliver %s hash idx: 2 1" % slot, "finish %s" % slot]
     u = gl.update_cmd(r, spec, slot)
@@ -292,7 +439,10 @@ def run(res, tier, seed, replay_sources=None):
     os.makedirs(wd, exist_ok=True)
     r = vlib.rng(seed, PID)
     nsrc = {"quick": 110, "thorough": 900}[tier] * (3 if proof_broken else 1)
-    sources = replay_sources if replay_sources is not None else corpus_sources() + [gen_source(r, i) for i in range(nsrc)]
+    open(os.path.join(wd, CUSTOM_FILE), "w").write(custom_table_text())
+    ncust = {"quick": 10, "thorough": 80}[tier]
+    sources = replay_sources if replay_sources is not None else (corpus_sources() + custom_sources(vlib.rng(seed, PID, "custom"), ncust)
+                                                                 + [gen_source(r, i) for i in range(nsrc)])
     stats = {"sources": 0, "equality_cases": 0, "mutation_cases": 0, "mutations_applied": 0, "redigests": 0, "violations": 0, "asan_cases": 0,
              "subrange_copies": 0, "split_arrays": 0, "byte_images_compared": 0, "sources_skipped": 0, "special_cases": 0}
 
@@ -377,6 +527,18 @@ def run(res, tier, seed, replay_sources=None):
                 scripts.append(ls)
                 plan[cid] = ("M", s, kind, b, e, len(s["script"]) + len(copy_cmd(kind, b, e)), len(dg), muts, side, len(ds))
                 _ = so
+        # continuation: the same further history on the source and on the copy (custom tabulated rule: every copy path; otherwise one full copy
+        # path and one sub-range; sub-ranges of a grid under construction are left to the M cases, see KEY_CDATA)
+        if s["kind"] not in ("empty", "construct-empty"):
+            if is_custom(s["spec"]):
+                kk = list(kinds)
+            else:
+                kk = [kinds[rr.randrange(4)]] + ([rr.choice(kinds[4:])] if len(kinds) > 4 and s["kind"] != "construct" else [])
+            for ci, (kind, b, e) in enumerate(kk):
+                cid = "%s.c%d.K" % (s["id"], ci)
+                ca, cb = continuation(s, "a", outs, b, s["loaded"]), continuation(s, "b", e - b, b, s["loaded"])
+                scripts.append(["case " + cid] + s["script"] + copy_cmd(kind, b, e) + ca + cb)
+                plan[cid] = ("K", s, kind, b, e, len(s["script"]) + len(copy_cmd(kind, b, e)), len(ca), len(cb))
     # special cases: self-assignment, documented outputs_end beyond the range
     for s in live[:max(6, len(live) // 3)]:
         if s["kind"] == "empty":
@@ -402,7 +564,7 @@ def run(res, tier, seed, replay_sources=None):
               "case": cid, "script": next((x for x in scripts if x[0] == "case " + cid), [])[:300]}
         if extra:
             rp.update(extra)
-        res.violation(key, "%s [%s; state %s; case %s]" % (what, gl.make_cmd(s["spec"], "a") if s["kind"] != "empty" else "empty grid", s["kind"], cid), rp)
+        res.violation(key, "%s [%s; state %s; case %s]" % (what, mkcmd(s["spec"], "a") if s["kind"] != "empty" else "empty grid", s["kind"], cid), rp)
 
     tr = []
     for cid, pl in plan.items():
@@ -541,6 +703,41 @@ def run(res, tier, seed, replay_sources=None):
                          "%s on the %s changed the %s (%s; copy kind %s%s)" % (m[:60], "source" if side == "a" else "copy", "copy" if side == "a" else "source",
                                                                            why, kind, " %d %d" % (b, e) if kind == "range" else ""), cid, s)
                     break
+        elif pl[0] == "K":
+            _, s, kind, b, e, npre, na, nb = pl
+            famk = "global-custom" if is_custom(s["spec"]) else fam
+            path = kind if kind != "range" else "range"
+            stats["continuation_cases"] = stats.get("continuation_cases", 0) + 1
+            if any(x.exc is not None and x.exc[0] == "hang" for x in steps):
+                continue
+            if any(x.exc for x in steps[len(s["script"]):npre]):
+                continue     # the copy itself raised: reported by the equality case
+            sa, sb = steps[npre:npre + na], steps[npre + na:npre + na + nb]
+            if len(sa) < na or any(x.exc is not None and x.exc[0].startswith("crash") for x in sa):
+                stats["continuations_failing_on_the_source"] = stats.get("continuations_failing_on_the_source", 0) + 1
+                continue     # the call fails on the source itself: not a property of the copy
+            thrown = next(((x, y) for x, y in zip(sa, sb) if y.exc is not None and x.exc is None), None)
+            if thrown:
+                viol("copy-continuation-throws:%s" % famk, "'%s' succeeds on the source, on the copy (%s%s) '%s' raises %s"
+                     % (thrown[0].cmd[:60], kind, " %d %d" % (b, e) if kind == "range" else "", thrown[1].cmd[:60], thrown[1].exc), cid, s)
+                continue
+            cb_ = [x for x in sb if x.exc is not None and x.exc[0].startswith("crash")]
+            if cb_ or len(sb) < nb:
+                viol("copy-continuation-throws:%s" % famk, "the continuation runs on the source, on the copy (%s%s) it ends at '%s' with %s"
+                     % (kind, " %d %d" % (b, e) if kind == "range" else "", (cb_[0].cmd if cb_ else "?")[:60], cb_[0].exc if cb_ else "truncated output"), cid, s)
+                continue
+            full = (b == 0 and e == s["outs"])
+            if not full:
+                for x in sa + sb:
+                    x.obs.pop("written", None)      # (the image of a sub-range copy holds fewer values)
+            diffs = compare_steps(sa, sb, s["outs"], b, e, s["spec"]["dims"])
+            if full:
+                diffs += ["%s: message on the source '%s', on the copy '%s'" % (x.cmd.split()[0], x.exc[1][:80], y.exc[1][:80])
+                          for x, y in zip(sa, sb) if x.exc and y.exc and x.exc[0] == y.exc[0] and x.exc[1] != y.exc[1]]
+            stats["continuation_steps_compared"] = stats.get("continuation_steps_compared", 0) + len(sa)
+            if diffs:
+                viol("copy-continuation-differs:%s:%s" % (famk, path), "the same continuation on the source and on the copy (%s%s) gives different observations: %s"
+                     % (kind, " %d %d" % (b, e) if kind == "range" else "", "; ".join(diffs[:4])), cid, s)
         elif pl[0] == "S":
             _, s, npre, nd = pl
             stats["special_cases"] += 1
@@ -572,7 +769,7 @@ def run(res, tier, seed, replay_sources=None):
     for i, x in enumerate(asel):
         # (getLoadedValues() of a grid without loaded points forms &values[0] of an empty vector: harmless, but UBSan stops on it;
         #  the value arrays of the mutated object are only compared in the plain build)
-        chunks[i % nproc] += [l.replace(" nidx pidx values", " nidx pidx") for l in x]
+        chunks[i % nproc] += [l.replace(" nidx pidx values", " nidx pidx") for l in x if not (l.startswith("dump ") and l.endswith(" values") and len(l.split()) == 3)]
 
     def one(i):
         return con.run_scripts(drv_asan, chunks[i], wd, "asan_%d" % i, timeout=1700, case_timeout=120, env=asan_env)
@@ -631,7 +828,7 @@ def run(res, tier, seed, replay_sources=None):
     for s in live:
         k = "%s/%s/outs%d" % (s["spec"]["family"], s["kind"], s["outs"])
         dist[k] = dist.get(k, 0) + 1
-    nontrivial = sum(1 for cid, pl in plan.items() if pl[0] in ("E", "M") and pl[1]["kind"] not in ("fresh", "empty"))
+    nontrivial = sum(1 for cid, pl in plan.items() if pl[0] in ("E", "M", "K") and pl[1]["kind"] not in ("fresh", "empty"))
     res.coverage.update({
         "explanation": "The restriction algebra of copyGrid(source, b, e) is proved in Coq (6 theorems: split of strip arrays, restriction of parked samples, the "
                        "hierarchical transform and the surrogate commute with the restriction of the outputs) and tied to the implementation's arrays exactly. "
@@ -643,13 +840,20 @@ def run(res, tier, seed, replay_sources=None):
                 "active construction with parked samples / empty); per source: copy constructor, assignment, copyGrid, assignment or copyGrid over a non-empty "
                 "object, copyGrid(b,e) for ALL sub-ranges (equality cases), and for one full and one sub-range copy two mutation cases (mutate source / mutate "
                 "copy with every mutating call, re-observing the other side after each); non-trivial = the source has loaded values, a pending refinement or "
-                "construction data; distinct by (source, copy kind, range, side)",
+                "construction data; distinct by (source, copy kind, range, side); K cases: the same continuation (refinement by one output of the range, "
+                "updateGrid to a larger depth, polynomial space, load, evaluate, integrate, write+read in both formats with a digest and a further update of the "
+                "grid read back, begin/candidates/finish) on the source and on the copy must give the same observations on the range, exceptions included; "
+                "%d Global grids with a custom tabulated rule (Gauss-Legendre levels, table of %d levels) are always among the sources and are copied "
+                "through every path" % (ncust, CUSTOM_LEVELS),
         "samples": [scripts[min(5, len(scripts) - 1)][:14]] if scripts else [],
         "programs": len(live), "traces_validated_against_impl": okc, "disagreements_checked": len(mism),
         "sources": stats["sources"], "sources_skipped_config": stats["sources_skipped"], "equality_cases": stats["equality_cases"],
         "subrange_copies": stats["subrange_copies"], "byte_images_compared": stats["byte_images_compared"],
         "mutation_cases": stats["mutation_cases"], "mutations_applied": stats["mutations_applied"], "other_side_reobserved": stats["redigests"],
         "source_vs_copy_behaviour_compared": stats.get("behaviour_compared", 0), "mutations_failing_on_both_sides": stats.get("mutations_failing_on_both_sides", 0),
+        "continuation_cases": stats.get("continuation_cases", 0), "continuation_steps_compared": stats.get("continuation_steps_compared", 0),
+        "continuations_failing_on_the_source": stats.get("continuations_failing_on_the_source", 0),
+        "custom_tabulated_sources": sum(1 for s in live if is_custom(s["spec"])),
         "special_cases": stats["special_cases"], "sanitizer_cases": stats["asan_cases"], "split_arrays_vs_model": stats["split_arrays"],
         "input_distribution": dist, "direct_property_violations": stats["violations"],
     })
